@@ -735,25 +735,38 @@ class Vector():
 
 			# Object dtype accepts any type - skip validation
 			if self._dtype is not None and self._dtype.kind is not object:
-				incompatible = None
+				# Decide the dtype that accommodates EVERY new value before touching
+				# anything: None makes the column nullable, a wider compatible kind
+				# promotes it, anything else is rejected with nothing changed.
+				target = self._dtype
 				for val in new_values:
 					try:
-						validate_scalar(val, self._dtype)
+						validate_scalar(val, target)
+						continue
 					except TypeError:
-						incompatible = val
-						break
-
-				if incompatible is not None:
-					required_dtype = infer_dtype([incompatible])
-					try:
-						self._promote(required_dtype.kind)
-						underlying = self._underlying
-					except SerifTypeError:
+						pass
+					if val is None:
+						target = target.with_nullable(True)
+						continue
+					required_kind = infer_dtype([val]).kind
+					if (
+						(required_kind is float and target.kind is int)
+						or (required_kind is complex and target.kind in (int, float))
+						or (required_kind is datetime and target.kind is date)
+					):
+						target = DataType(required_kind, target.nullable)
+					else:
 						raise SerifTypeError(
-							f"Cannot set {required_dtype.kind.__name__} in "
+							f"Cannot set {required_kind.__name__} in "
 							f"{self._dtype.kind.__name__} vector. "
 							f"Promotion not supported."
 						)
+
+				if target.kind is not self._dtype.kind:
+					self._promote(target.kind)
+					underlying = self._underlying
+				if target.nullable and not self._dtype.nullable:
+					self._dtype = self._dtype.with_nullable(True)
 		# =====================================================================
 		# MUTATE — copy-on-write + fingerprint updates
 		# =====================================================================
